@@ -223,3 +223,149 @@ def lemma_raising_selection(reg, repo):
 
 lemma_raising_selection.target = "trees.transform.raising"
 LEMMAS["raising_selection"] = lemma_raising_selection
+
+
+# ----------------------------------------------------------------------------------------------------------------------
+# boyd_split, one block node (the body of `for i, block in enumerate(blocks)`): the new node is a copy of the split
+# constituent marked split, with the constituent's head flag and the block's number, appended to the old parent; it
+# takes over exactly the children of the block, in order; and it is the *head block* exactly when the block holds the
+# piece of the head child that carries the head: a child with `head` that is not itself a split node, or is the head
+# block of its own split.  (Raw heap in the middle of the surgery: no well-formedness is assumed, only that the block's
+# members are distinct children of the constituent.)
+# ----------------------------------------------------------------------------------------------------------------------
+def lemma_boyd_block_node(reg, repo):
+    import ast
+    import z3
+    from pyvc.core import Contract, Exec, State
+    from pyvc.heap import Heap
+    from pyvc.sym import (VRef, VBool, VInt, VList, REF, TList, tobool, toint, fresh_name, qforall, fresh, Unsupported)
+    add_common(reg)
+    qual = "trees.transform.boyd_split"
+    info = repo.fns.get(qual)
+    if info is None:
+        raise Unsupported("function %s no longer exists" % qual)
+    loop = None
+    for node in ast.walk(info.node):
+        if isinstance(node, ast.For) and ast.unparse(node.target) == "(i, block)":
+            loop = node
+    if loop is None:
+        raise Unsupported("the block loop of boyd_split was not found (the contract no longer binds)")
+    orig_inner = [n for s in loop.body for n in ast.walk(s) if isinstance(n, ast.For)]
+    if len(orig_inner) != 1:
+        raise Unsupported("expected one loop over the block's children, found %d" % len(orig_inner))
+    # Extraction: the statement `subtree.children.remove(child)` (exactly one) is dropped from the copy that is
+    # executed here -- its effect on the child list of the old constituent is the subject of the mover-step block
+    # contract at that site (lemma mover.boyd_split); everything else of the loop body is executed as it stands.
+    import copy
+    body = copy.deepcopy(loop.body)
+    dropped = [0]
+
+    class Drop(ast.NodeTransformer):
+        def visit_Expr(self, n):
+            if ast.unparse(n) == "subtree.children.remove(child)":
+                dropped[0] += 1
+                return ast.copy_location(ast.Pass(), n)
+            return n
+    body = [ast.fix_missing_locations(Drop().visit(s_)) for s_ in body]
+    if dropped[0] != 1:
+        raise Unsupported("expected exactly one `subtree.children.remove(child)` in the block loop, found %d" % dropped[0])
+    inner = [n for s_ in body for n in ast.walk(s_) if isinstance(n, ast.For)]
+    c = Contract(target=qual, prop="C05", args={}, loops={})
+    ex = Exec(repo, reg, info, c, prefix="C05.boyd_block_node")
+    ex.loop_ords[id(inner[0])] = ex.loop_ords[id(orig_inner[0])]
+    E = Heap.fresh("Y")
+    st = State(heap=E.copy())
+    for t in E.typing():
+        st.assume(t)
+    assume = []
+    subtree, parent = VRef(z3.Int(fresh_name("y_subtree"))), VRef(z3.Int(fresh_name("y_parent")))
+    block = fresh(TList(REF), "y_block", assume=assume)
+    split = fresh(TList(REF), "y_split", assume=assume)
+    i = VInt(z3.Int(fresh_name("y_i")))
+    for t in assume:
+        st.assume(t)
+    st.env.update(dict(subtree=subtree, parent=parent, block=block, split=split, i=i, h_block="head_block"))
+    ex.entry_heap = E
+    a, b, q = z3.Int(fresh_name("ya")), z3.Int(fresh_name("yb")), z3.Int(fresh_name("yq"))
+    alive = lambda r: z3.Select(E.f["alive"], r)
+    where = z3.Function(fresh_name("y_where"), z3.IntSort(), z3.IntSort())     # index of block[a] in subtree.children
+    st.assume(z3.And(subtree.t != 0, parent.t != 0, subtree.t != parent.t, alive(subtree.t), alive(parent.t),
+                     z3.Select(E.f["has_head"], subtree.t)))
+    st.assume(qforall([a], z3.Implies(z3.And(0 <= a, a < block.n), z3.And(
+        block.get(a).t != 0, alive(block.get(a).t), block.get(a).t != subtree.t, block.get(a).t != parent.t,
+        z3.Select(E.f["has_head"], block.get(a).t), z3.Select(E.f["has_split"], block.get(a).t),
+        z3.Select(E.f["has_head_block"], block.get(a).t),
+        0 <= where(a), where(a) < E.nchild_t(subtree.t), E.child_t(subtree.t, where(a)) == block.get(a).t)),
+        [block.get(a).t]))
+    st.assume(qforall([a, b], z3.Implies(z3.And(0 <= a, a < b, b < block.n), block.get(a).t != block.get(b).t),
+                      [[block.get(a).t, block.get(b).t]]))
+
+    def carries_head(r):
+        """a child with the head flag that is not a split node, or is the head block of its own split"""
+        return z3.And(z3.Select(E.f["val_head"], r),
+                      z3.Or(z3.Not(z3.Select(E.f["val_split"], r)), z3.Select(E.f["val_head_block"], r)))
+
+    def taken(H, N, upto):
+        j = z3.Int(fresh_name("tj"))
+        return z3.And(
+            H.nchild_t(N) == upto,
+            qforall([j], z3.Implies(z3.And(0 <= j, j < upto), z3.And(H.child_t(N, j) == block.get(j).t,
+                                                                    H.parent_t(block.get(j).t) == N)), [block.get(j).t]),
+            z3.Select(H.f["val_head_block"], N) == z3.Exists([j], z3.And(0 <= j, j < upto, carries_head(block.get(j).t))))
+
+    def flags_frame(H, N):
+        m = z3.Int(fresh_name("fm"))
+        return z3.And(*[qforall([m], z3.Implies(m != N, z3.Select(H.f[k], m) == z3.Select(E.f[k], m)),
+                                [z3.Select(H.f[k], m)])
+                        for k in ("val_head", "val_split", "val_head_block", "has_head", "has_split", "has_head_block")])
+
+    def inner_inv(S):
+        H = S.H
+        sp = S.split
+        N = sp.get(sp.n - 1).t
+        it = toint(S.it)
+        j = z3.Int(fresh_name("ij"))
+        qq = z3.Int(fresh_name("iq"))
+        return VBool(z3.And(
+            sp.n >= 1, N != 0, z3.Not(alive(N)), taken(H, N, it), flags_frame(H, N),
+            z3.Select(H.f["has_head_block"], N), z3.Select(H.f["has_head"], N), z3.Select(H.f["has_split"], N),
+            # the new node stays where it was hooked in
+            H.parent_t(N) == parent.t, H.nchild_t(parent.t) == E.nchild_t(parent.t) + 1,
+            H.child_t(parent.t, E.nchild_t(parent.t)) == N))
+
+    ex.c.loops = {ex.loop_ords[id(inner[0])]: dict(inv=inner_inv, types={"split": TList(REF)})}
+    ex.obligations = []
+    outs = ex._with_raises(st, ex.exec_block(body, st))
+    vcs = []
+    for oi, o in enumerate(outs):
+        if o.kind == "raise":
+            # 'heads not marked?' needs a node without the head flag: excluded by the precondition
+            vcs.append(("path%d.L%s.no_exception_when_heads_are_marked" % (oi, o.val), list(o.st.pc), z3.BoolVal(False)))
+            continue
+        if o.kind != "normal":
+            raise Unsupported("the block-node step leaves the loop body by %s" % o.kind)
+        H = o.st.heap
+        sp = ex.iter_list(o.st.env["split"], o.st, None)
+        N = sp.get(sp.n - 1).t
+        sel = lambda f, r: z3.Select(H.f[f], r)
+        goals = {
+            "new_node_is_a_marked_copy_appended_to_the_old_parent": z3.And(
+                sp.n == split.n + 1, N != 0, z3.Not(alive(N)),
+                sel("val_split", N), sel("val_head", N) == z3.Select(E.f["val_head"], subtree.t),
+                sel("val_block_number", N) == i.t + 1,
+                sel("val_label", N) == z3.Select(E.f["val_label"], subtree.t),
+                H.parent_t(N) == parent.t, H.nchild_t(parent.t) == E.nchild_t(parent.t) + 1,
+                H.child_t(parent.t, E.nchild_t(parent.t)) == N),
+            "takes_over_exactly_the_block_in_order_and_is_head_block_iff_it_holds_the_head_carrying_piece":
+                taken(H, N, block.n),
+            "flags_of_all_other_nodes_unchanged": flags_frame(H, N),
+        }
+        for gname, g in goals.items():
+            vcs.append(("path%d.%s" % (oi, gname), list(o.st.pc), g))
+    for ob in ex.obligations:
+        vcs.append(("step.%s" % ob.name.split(".", 2)[-1], list(ob.pc), ob.goal))
+    return vcs
+
+
+lemma_boyd_block_node.target = "trees.transform.boyd_split"
+LEMMAS["boyd_block_node"] = lemma_boyd_block_node
